@@ -114,6 +114,23 @@ def run(ctx):
         if db is None:
             res.oracle_failures.append(("create_db raised on a plain GFF3 feature set: " + rep, {"lines": lines}))
             continue
+        # in some sets a few features are moved afterwards (fetch, change coordinates, update with replace):
+        # the stored bin has to follow the new coordinates
+        if si % 3 == 0:
+            import warnings
+            for f0 in r.sample(feats, min(3, len(feats))):
+                if iv(f0["start"]) is None or iv(f0["end"]) is None:
+                    continue
+                ns = boundary_coord(r)
+                ne = ns + r.choice([0, 5, SIZES[0] - 1, r.randrange(0, 2 * SIZES[0])])
+                obj = db[f0["id"]]
+                obj.start, obj.end = ns, ne
+                with warnings.catch_warnings():
+                    warnings.simplefilter("ignore")
+                    db.update([obj], merge_strategy="replace", make_backup=False)
+                f0["start"], f0["end"] = str(ns), str(ne)
+                res.count("moved_features")
+            lines = lines_of(feats)
         cmds.append(dbside.cmd_load(db)); exp.append("ok"); tags.append(("load", "dump of the real database"))
         root = feats[0]["id"]
         kids = [f for f in feats if f["parent"] == root]
